@@ -26,13 +26,14 @@
 import GherkinVerif.Lemmas.Layout
 import GherkinVerif.Gen.ParserTable
 import GherkinVerif.Gen.Dialects
+import GherkinVerif.KDecide
 namespace GV
 open Lemmas
 
 /-! ## which matcher states are covered -/
 
 /-- fact about the regenerated dialect table: no step keyword is empty or ends in CR or LF -/
-theorem C16_step_keywords_ok : Spec.stepKeywordsOk Gen.dialects = true := by decide +kernel
+theorem C16_step_keywords_ok : Spec.stepKeywordsOk Gen.dialects = true := by kdecide
 
 /-- Every matcher state the parser can be in is covered by the per-line theorems: the state
     `TokenMatcher(name)` makes has no active separator and a dialect of the table … -/
@@ -180,9 +181,9 @@ theorem C16_indent_unexpected (row : StateRow) (t : Token) (ws s : Str) (hws : A
 /-- facts about the regenerated table: an `Empty` test is always an unguarded build-only
     self-loop; every look-ahead skips `Empty` and expects neither `Empty` nor `Other`; a state
     that tests `Empty` at all tests it before `Other`. -/
-theorem C16_empty_self_loop : Spec.emptySelfLoop Gen.parserTable = true := by decide +kernel
-theorem C16_lookaheads_skip_empty : Spec.lookaheadsSkipEmpty Gen.parserTable = true := by decide +kernel
-theorem C16_empty_before_other : Spec.emptyBeforeOther Gen.parserTable = true := by decide +kernel
+theorem C16_empty_self_loop : Spec.emptySelfLoop Gen.parserTable = true := by kdecide
+theorem C16_lookaheads_skip_empty : Spec.lookaheadsSkipEmpty Gen.parserTable = true := by kdecide
+theorem C16_empty_before_other : Spec.emptyBeforeOther Gen.parserTable = true := by kdecide
 
 /-- One step: in a state where the first test a blank line passes is `Empty`, it is consumed by
     a branch that only builds and returns to the same state, whatever follows. -/
@@ -232,8 +233,8 @@ theorem C16_blank_line_states (T : Table) (hB : Spec.emptyBeforeOther T = true) 
     unguarded and only builds (possibly opening a `Description`), and the state it leads to offers
     a title, step, tag, table-row or delimiter line the same tests with the same guards, targets
     and productions up to `Description` start/end. -/
-theorem C16_lookaheads_skip_comment : Spec.lookaheadsSkipComment Gen.parserTable = true := by decide +kernel
-theorem C16_comment_before_fact : Spec.commentBefore Gen.parserTable = true := by decide +kernel
+theorem C16_lookaheads_skip_comment : Spec.lookaheadsSkipComment Gen.parserTable = true := by kdecide
+theorem C16_comment_before_fact : Spec.commentBefore Gen.parserTable = true := by kdecide
 
 /-- Whole run: insert a comment line directly before a structural line `k`, at a point where the
     run (over `pre`, reaching `s'` with events `e1`) reads a comment as a comment (every state
@@ -310,17 +311,17 @@ example :
     let o1 := matchLine [] .TagLine C16_en (withLine { line := none, lineNo := 1 } (lit "@a @b\n")) (lit "@a @b\n")
     let o2 := matchLine [] .TagLine C16_en (withLine { line := none, lineNo := 1 } (lit "  @a @b\n")) (lit "  @a @b\n")
     o1.tok.items = [(1, lit "@a"), (4, lit "@b")] ∧ o2.tok.items = [(3, lit "@a"), (6, lit "@b")] ∧
-      o1.tok.col = some 1 ∧ o2.tok.col = some 3 := by decide +kernel
+      o1.tok.col = some 1 ∧ o2.tok.col = some 3 := by kdecide
 
 /-- kind level: after a feature line (state 3) a blank line is read as `Empty` first and a comment
     as a comment; in a description (state 4) a blank line is description text -/
 example : Spec.emptyFirst Gen.parserTable 3 = true ∧ Spec.commentFirst Gen.parserTable 3 = true ∧
-    Spec.emptyFirst Gen.parserTable 4 = false := by decide +kernel
+    Spec.emptyFirst Gen.parserTable 4 = false := by kdecide
 
 /-- a concrete accepted run and the same run with a blank line inserted after the feature line -/
 example :
     (runAbs Gen.parserTable 0 [.FeatureLine, .ScenarioLine, .StepLine, .EOF]).isSome = true ∧
     (runAbs Gen.parserTable 0 [.FeatureLine, .Empty, .ScenarioLine, .StepLine, .EOF]).isSome = true := by
-  decide +kernel
+  kdecide
 
 end GV
